@@ -1,4 +1,291 @@
-import Nstd.Server.ModelC13
+import Nstd.Server.MoreC14
+/-
+  C14 — property theorems about the transition-system model of `Server::run()` (ModelC14.lean).
+
+  `reach ms` is the state after ANY history `ms : List Move`: API calls (also interrupt), peer /
+  clock actions, creation of clients / listeners / establishers, installation of arbitrary callback
+  scripts, entering run(), and steps of run() with ANY answer of the kernel to epoll_wait
+  (`PollIn`: any list of (socket, native events) in any order, event descriptor reported or not, any
+  time advance) and ANY send outcome.  Callbacks are scripts that create / remove timers and remove /
+  suspend / resume / read / write any object, also the one being called or the client being accepted.
+
+  OPEN (not proved; fairness / real time — see the evidence notes):
+   * ready_eventually_dispatched: under a fair kernel every registered ready socket is eventually
+     dispatched (the model gives the safety half: one buffered event per poll, FIFO, pruned only by
+     set/remove — `dispatch_only_registered_kinds`, `buffered_events_are_registered`).
+   * interrupt() from a second thread is modelled as one atomic action (flag + event descriptor);
+     the window between the two writes is argued in the notes, not modelled.
+   * that activation happens no LATER than the kernel's time-out granularity allows is a statement
+     about real time; the model proves `poll_timeout_is_next_due` (run never sleeps past a due time).
+-/
 namespace Nstd.Server.C14
-theorem placeholder14 : (1 : Nat) = 1 := rfl
+open Nstd.Server.C13 (Outcome SendRes sendOS)
+
+/-! ### safety of the model itself -/
+
+/-- the real code never goes through a null / dangling pointer: queued timer entries belong to live
+    timers, buffered poll events to registered sockets of the right kind with a callback, the closing
+    list to live clients, the client handed to onAccepted/onConnected survives the callback -/
+theorem no_fault (ms : List Move) : (reach ms).fault = false := (inv_reach ms).s.noFault
+
+/-! ### timers -/
+
+/-- exactly one queue entry per live timer, keyed by its execution time; none for a removed timer;
+    the queue is sorted by due time (FIFO among equal due times by construction of `qInsert`) -/
+theorem timer_queue_exact (ms : List Move) :
+    SortedQ (reach ms).queue ∧
+    (∀ t ti, (reach ms).timers t = some ti → entsOf (reach ms).queue t = [(ti.exec, some t)]) ∧
+    (∀ t, (reach ms).timers t = none → entsOf (reach ms).queue t = []) :=
+  ⟨(inv_reach ms).t.sorted, (inv_reach ms).t.live, (inv_reach ms).t.dead⟩
+
+/-- timer_not_early: a timer is activated only in the timer loop of an iteration that sampled the
+    clock at `now`, with its execution time `due ≤ now` -/
+theorem timer_not_early (ms : List Move) (inp : PollIn) (o : Outcome) (t : Id) (now due : Int)
+    (he : Ev.activated t now due ∈ (step (reach ms) inp o).2) :
+    (reach ms).pc = .timers now ∧ due ≤ now ∧ ∃ ti, (reach ms).timers t = some ti ∧ ti.exec = due := by
+  obtain ⟨_, h2⟩ := step_evs _ inp o _ he
+  obtain ⟨a, b, _⟩ := h2 t now due rfl
+  obtain ⟨ti, c, d, _⟩ := activation_rearms _ inp o (inv_reach ms).t t now due he
+  exact ⟨a, b, ti, c, d⟩
+
+/-- timer_order: the activated timer is the head of the sorted queue — no queued timer (nor the
+    default timer) is due earlier, and among equal due times it is the one queued first -/
+theorem timer_order (ms : List Move) (inp : PollIn) (o : Outcome) (t : Id) (now due : Int)
+    (he : Ev.activated t now due ∈ (step (reach ms) inp o).2) :
+    (reach ms).queue.head? = some (due, some t) ∧ ∀ k v, (k, v) ∈ (reach ms).queue → due ≤ k := by
+  obtain ⟨_, h2⟩ := step_evs _ inp o _ he
+  obtain ⟨_, _, hh⟩ := h2 t now due rfl
+  refine ⟨hh, ?_⟩
+  have hs := (inv_reach ms).t.sorted
+  cases hq : (reach ms).queue with
+  | nil => rw [hq] at hh; simp at hh
+  | cons e rest =>
+    rw [hq] at hh hs
+    simp only [List.head?_cons, Option.some.injEq] at hh
+    subst hh
+    unfold SortedQ at hs
+    rw [List.pairwise_cons] at hs
+    intro k v hm
+    rcases List.mem_cons.mp hm with h | h
+    · injection h with h1 _; omega
+    · exact hs.1 _ h
+
+/-- timer_once_per_interval: after its activation the timer is queued again exactly one interval
+    after the due time it was activated for (or it has been removed by the callback); together with
+    `timer_queue_exact` (one entry per live timer) this gives one activation per interval -/
+theorem timer_once_per_interval (ms : List Move) (inp : PollIn) (o : Outcome) (t : Id) (now due : Int)
+    (he : Ev.activated t now due ∈ (step (reach ms) inp o).2) :
+    ∃ ti, (reach ms).timers t = some ti ∧ ti.exec = due ∧
+      ((step (reach ms) inp o).1.timers t = some { exec := due + ti.interval, interval := ti.interval } ∨
+       (step (reach ms) inp o).1.timers t = none) :=
+  activation_rearms _ inp o (inv_reach ms).t t now due he
+
+/-- the time-out handed to poll is the distance to the earliest queued due time (never negative):
+    run() does not sleep past a due timer, also when onClosed callbacks created timers -/
+theorem poll_timeout_is_next_due (ms : List Move) (inp : PollIn) (o : Outcome) (now tmo tmo' : Int)
+    (hpc : (reach ms).pc = .closing now tmo) (h : (step (reach ms) inp o).1.pc = .poll now tmo') :
+    ∃ k v rest, (reach ms).queue = (k, v) :: rest ∧ tmo' = (if k - now < 0 then 0 else k - now) := by
+  have hcl := closing_then_poll _ inp o now tmo hpc ⟨tmo', h⟩
+  unfold step at h
+  simp only [hpc, hcl] at h
+  cases hq : (reach ms).queue with
+  | nil => rw [hq] at h; simp at h
+  | cons e rest =>
+    obtain ⟨k, v⟩ := e
+    rw [hq] at h
+    simp at h
+    exact ⟨k, v, rest, rfl, h.symm⟩
+
+/-! ### removals -/
+
+/-- every callback of every step goes to an object that is in its object table when the step starts -/
+theorem callbacks_only_to_live (ms : List Move) (inp : PollIn) (o : Outcome) (e : Ev)
+    (he : e ∈ (step (reach ms) inp o).2) : LiveFor (reach ms) e :=
+  (step_evs _ inp o e he).1
+
+/-- `gone i` = a remove() of object `i` has returned (or the server deleted the client after a null /
+    removed hand-over).  It is set by the remove calls: -/
+theorem remove_timer_gone (s : St) (nc : Option Id) (i : Id) (h : s.timers i ≠ none) :
+    (applyAct s nc (.rmTimer i)).gone i = true ∧ (applyAct s nc (.rmTimer i)).timers i = none := by
+  simp only [applyAct, rmTimer]
+  cases ht : s.timers i with
+  | none => exact absurd ht h
+  | some t => simp [markGone, upd]
+
+theorem remove_client_gone (s : St) (nc : Option Id) (i : Id) (c : ClientS) (h : s.clients i = some c)
+    (hcb : c.hasCb = true) :
+    (applyAct s nc (.rmClient i)).gone i = true ∧ (applyAct s nc (.rmClient i)).clients i = none := by
+  simp only [applyAct, rmClient, h, hcb, if_true, deleteClient, markGone, upd]
+  simp
+
+theorem remove_listener_gone (s : St) (nc : Option Id) (i : Id) (h : s.listeners i ≠ none) :
+    (applyAct s nc (.rmListener i)).gone i = true ∧ (applyAct s nc (.rmListener i)).listeners i = none := by
+  simp only [applyAct, rmListener]
+  cases ht : s.listeners i with
+  | none => exact absurd ht h
+  | some t => simp [markGone, upd]
+
+theorem remove_establisher_gone (s : St) (nc : Option Id) (i : Id) (h : s.ests i ≠ none) :
+    (applyAct s nc (.rmEst i)).gone i = true ∧ (applyAct s nc (.rmEst i)).ests i = none := by
+  simp only [applyAct, rmEst]
+  cases ht : s.ests i with
+  | none => exact absurd ht h
+  | some t => simp [markGone, upd]
+
+/-- D20: a client removed inside its own onAccepted/onConnected is deleted when the callback returns,
+    whatever the callback returns -/
+theorem remove_new_client_gone (s : St) (nc : Id) (acts : List Act) (c : ClientS) (h : s.clients nc = some c)
+    (hr : c.removed = true) :
+    (finishHandOver s nc acts).gone nc = true ∧ (finishHandOver s nc acts).clients nc = none := by
+  simp only [finishHandOver, h, hr, Bool.or_true, if_true, deleteClient, markGone, upd]
+  simp
+
+/-- removed_never_called: once `gone i` holds it holds forever, the id is never used again, and no
+    later step — whatever the history in between: events already buffered in the poll, the removal
+    having happened inside a callback, equal due times — delivers a callback to `i` -/
+theorem removed_never_called (ms ms' : List Move) (i : Id) (hg : (reach ms).gone i = true)
+    (inp : PollIn) (o : Outcome) (e : Ev) (he : e ∈ (step (reach (ms ++ ms')) inp o).2) :
+    callee e ≠ some i := by
+  intro hc
+  have hlive := liveFor_live _ e i (callbacks_only_to_live (ms ++ ms') inp o e he) hc
+  have hg' : (reach (ms ++ ms')).gone i = true := by
+    unfold reach; rw [runMoves_append]; exact gone_runMoves _ ms' i hg
+  exact ((inv_reach (ms ++ ms')).u.gone i hg').2 hlive
+
+/-- ids are never reused and an id is one kind of object only -/
+theorem ids_never_reused (ms : List Move) (i : Id) (hg : (reach ms).gone i = true) :
+    (reach ms).used i = true ∧ ¬ Live (reach ms) i := (inv_reach ms).u.gone i hg
+
+/-! ### readiness dispatch -/
+
+/-- every event buffered in the poll belongs to a registered socket and carries only flags the socket
+    is registered for (set() prunes, remove() drops) -/
+theorem buffered_events_are_registered (ms : List Move) (i : Id) (fl : Flags)
+    (h : (i, fl) ∈ (reach ms).selected) : ∃ reg, lookup (reach ms).sockets i = some reg ∧ fl.sub reg :=
+  (inv_reach ms).s.selSub i fl h
+
+/-- a registered socket is a live object whose kind matches its flags (the casts in run() are sound) -/
+theorem registered_kind (ms : List Move) (i : Id) (reg : Flags) (h : lookup (reach ms).sockets i = some reg) :
+    KindOk (reach ms) i reg := (inv_reach ms).s.kind i reg h
+
+/-- dispatch_only_registered_kinds: a poll step calls back only for the event `(i, fl)` the poll
+    delivered, only with the callback kind of a flag in `fl`, and `fl` is within the flags socket `i`
+    is registered for at that moment -/
+theorem dispatch_only_registered_kinds (ms : List Move) (inp : PollIn) (o : Outcome) (now tmo : Int)
+    (hpc : (reach ms).pc = .poll now tmo) (e : Ev) (he : e ∈ (step (reach ms) inp o).2) :
+    e = .returned ∨ ∃ i fl reg, (pollStep (reach ms) inp).2 = some (i, fl) ∧
+      lookup (reach ms).sockets i = some reg ∧ fl.sub reg ∧ KindFor i fl e := by
+  have hev : (step (reach ms) inp o).2 = (dispatch (pollStep (reach ms) inp).1 (pollStep (reach ms) inp).2 o).2 := by
+    unfold step; simp only [hpc]; split <;> rfl
+  rw [hev] at he
+  obtain ⟨_, h2⟩ := dispatch_evs _ _ o e he
+  rcases h2 with h2 | ⟨i, fl, h3, h4⟩
+  · exact Or.inl h2
+  · obtain ⟨_, hok⟩ := pollStep_invS (reach ms) inp (inv_reach ms).s
+    obtain ⟨reg, hr1, hr2⟩ := hok i fl h3
+    rw [(pollStep_tables (reach ms) inp).2.2.2.1] at hr1
+    exact Or.inr ⟨i, fl, reg, h3, hr1, hr2, h4⟩
+
+/-! ### failing I/O -/
+
+/-- a read that hits end-of-stream queues the client for onClosed -/
+theorem failed_read_queues_close (s : St) (i : Id) (c : ClientS) (hc : s.clients i = some c) (h0 : c.inbox = 0)
+    (hp : c.peerClosed = true) : i ∈ (applyAct s none (.read i)).closing :=
+  read_failure_queues s i c hc h0 hp
+
+/-- a write whose send fails queues the client for onClosed -/
+theorem failed_write_queues_close (s : St) (i : Id) (c : ClientS) (n : Nat) (o : Outcome)
+    (hc : s.clients i = some c) (h0 : c.backlog = 0) (he : sendOn c n o = .error) :
+    i ∈ (applyAct s none (.write i n o)).closing :=
+  write_failure_queues s i c n o hc h0 he
+
+/-- failed_io_then_onClosed: the closing loop delivers onClosed to the queued client (unless it was
+    removed while being accepted), … -/
+theorem closing_delivers_onClosed (ms : List Move) (inp : PollIn) (o : Outcome) (now tmo : Int) (c : Id)
+    (rest : List Id) (cl : ClientS) (hpc : (reach ms).pc = .closing now tmo)
+    (hcl : (reach ms).closing = c :: rest) (hc : (reach ms).clients c = some cl) (hr : cl.removed = false) :
+    (step (reach ms) inp o).2 = [Ev.onClosed c] ∧ (step (reach ms) inp o).1.pc = .closing now tmo :=
+  closing_step _ inp o (inv_reach ms).s now tmo c rest cl hpc hcl hc hr
+
+/-- … and run() does not poll again before the closing list is empty -/
+theorem poll_only_after_closing (ms : List Move) (inp : PollIn) (o : Outcome) (now tmo : Int)
+    (hpc : (reach ms).pc = .closing now tmo) :
+    (∃ tmo', (step (reach ms) inp o).1.pc = .poll now tmo') → (reach ms).closing = [] :=
+  closing_then_poll _ inp o now tmo hpc
+
+/-- a failing send in the write-ready branch is followed by onClosed in the same step -/
+theorem failed_write_ready_calls_onClosed (s : St) (i : Id) (c : ClientS) (o : Outcome)
+    (hc : s.clients i = some c) (hcb : c.hasCb = true) (hb : c.backlog ≠ 0) (he : sendOn c c.backlog o = .error) :
+    (writeReady s i o).2 = [Ev.onClosed i] :=
+  writeReady_failure s i c o hc hcb hb he
+
+/-! ### interrupt -/
+
+/-- whenever the interrupted flag is set the event descriptor is signalled (so a level-triggered
+    kernel reports it at the next epoll_wait) -/
+theorem interrupt_signals_eventfd (ms : List Move) : (reach ms).interrupted = true → 0 < (reach ms).eventfd :=
+  invI_reach ms
+
+/-- run_returns_only_on_interrupt: a step leaves run() only by consuming a pending interrupt -/
+theorem run_returns_only_on_interrupt (ms : List Move) (inp : PollIn) (o : Outcome)
+    (hin : (reach ms).pc ≠ .idle) (hout : (step (reach ms) inp o).1.pc = .idle) :
+    (reach ms).interrupted = true ∧ Ev.returned ∈ (step (reach ms) inp o).2 ∧
+    (step (reach ms) inp o).1.interrupted = false := by
+  rcases (step_rel (reach ms) inp o).2.2.1 hout with h | h
+  · exact absurd h hin
+  · exact h
+
+/-- a pending interrupt is never lost: it stays pending across every move until run() returns -/
+theorem interrupt_never_lost (ms : List Move) (m : Move) (h : (reach ms).interrupted = true) :
+    (move (reach ms) m).interrupted = true ∨ (move (reach ms) m).pc = .idle :=
+  (move_gone_invI (reach ms) m).2.2 h
+
+/-- interrupt_returns_run: with an interrupt pending — set before run() was entered or during it, at
+    top level or inside a callback — the next epoll_wait that reports the event descriptor (the
+    kernel must: its counter is non-zero) makes run() return -/
+theorem interrupt_returns_run (ms : List Move) (inp : PollIn) (o : Outcome) (now tmo : Int)
+    (hpc : (reach ms).pc = .poll now tmo) (hsel : (reach ms).selected = [])
+    (hi : (reach ms).interrupted = true) (he : inp.eventfd = true) :
+    (step (reach ms) inp o).1.pc = .idle ∧ (step (reach ms) inp o).2 = [Ev.returned] := by
+  have hfd : (reach ms).eventfd ≠ 0 := by have := interrupt_signals_eventfd ms hi; omega
+  have hp : (pollStep (reach ms) inp).2 = none ∧ (pollStep (reach ms) inp).1.interrupted = true := by
+    unfold pollStep
+    simp [hsel, he, hfd, hi]
+  obtain ⟨hp1, hp2⟩ := hp
+  unfold step
+  simp only [hpc]
+  rw [hp1]
+  unfold dispatch
+  simp [hp2]
+
+/-- interrupt() sets the flag (idempotently) -/
+theorem interrupt_sets_flag (s : St) : (applyAct s none .interrupt).interrupted = true := by
+  simp only [applyAct, interrupt]
+  split
+  · assumption
+  · rfl
+
+/-! ### non-vacuity: concrete histories reach the situations above -/
+
+/-- three timers with equal due time, the first removed by the callback of the second -/
+def exMoves : List Move :=
+  [.act (.mkTimer 1 2), .act (.mkTimer 2 2), .act (.mkTimer 3 2), .script 2 0 [.rmTimer 1, .interrupt],
+   .enter, .step {} .all, .step {} .all, .step {} .all, .step { dt := 2 } .all]
+
+example : (reach exMoves).pc = .timers 1002 ∧ (reach exMoves).queue.head? = some (1002, some 1) := by decide
+
+example : (step (reach exMoves) {} .all).2 = [Ev.activated 1 1002 1002] := by decide
+
+example : (step (step (reach exMoves) {} .all).1 {} .all).2 = [Ev.activated 2 1002 1002] ∧
+    (step (step (reach exMoves) {} .all).1 {} .all).1.gone 1 = true ∧
+    (step (step (reach exMoves) {} .all).1 {} .all).1.interrupted = true := by decide
+
+/-- a listener whose onAccepted removes the client it is given and returns a callback (D20) -/
+def exAccept : List Move :=
+  [.mkListener 1, .env (.dial 1), .script 1 0 [.rmNew], .enter, .step {} .all, .step {} .all, .step {} .all,
+   .step { events := [(1, { inn := true })] } .all]
+
+example : (reach exAccept).pc = .timers 1000 ∧ (reach exAccept).gone 1000 = true ∧
+    (reach exAccept).clients 1000 = none ∧ (reach exAccept).fault = false := by decide
+
 end Nstd.Server.C14
